@@ -52,7 +52,7 @@ def stats_specs(ctx, n):
     for i in range(n):
         T = rng.choice([3, 4, 5])
         m = stats_model(rng, T, two=i % 2 == 0)
-        N = rng.choice([4000, 6000, 8000])
+        N = rng.choice([4000, 6000, 8000]) if i else 24000      # one large panel: effects that grow with the agent index
         init = {v["name"]: [q(rng.randrange(v["n"])) for _ in range(N)] for v in m["vars"] if v["role"] == "state"}
         specs.append({"cid": i, "mdl": m, "init": init, "N": N, "seed": rng.randrange(10**6), "min_cell": 40})
     return specs
